@@ -10,12 +10,30 @@ def hook_commits():
     except Exception:
         return []
 
-# id -> (technique, level text, level note, design ref)
-CLAIMED = {
- "C18": ("property-based testing against a BTreeSet reference model (proptest byte-driven generator, 16 seeded runners) + exhaustive enumeration of all subset pairs of a 6-value window in thorough",
-         "Generated-input search: every public FiniteDomain operation is compared with a BTreeSet model on millions of domain pairs in both representations and both argument orders, plus O(1) operations on extreme isize bounds; thorough also enumerates a finite sub-space completely. This is exploration, not proof: it shows agreement on everything generated.",
-         "Trusts std BTreeSet and the harness's 40-line model; domains are non-empty.", "DESIGN.md §7 C18"),
+# ids whose check exists in the harness (keep in sync with harness/src/props/mod.rs)
+IMPLEMENTED = ["C01", "C02", "C03", "C18", "C22"]
+
+PBT = "property-based testing (proptest byte-driven generators, 16 seeded runners, shrinking to a replay file)"
+REFI = "Trusts the harness's reference unifier/interpreter (model/*.rs, small and independent of the implementation) and the finite universe used for instance comparison."
+# id -> (technique, level text, level note)
+TABLE = {
+ "C01": (PBT + " against a reference Robinson unifier; exhaustive pairs of terms up to size 4 in thorough",
+         "Generated term pairs with prior bindings (mutation-derived so that unifiable, near-miss and occurs-check cases are frequent) are unified by State::unify and by queries; success, cycle-freedom, equality of both sides, most-generality (image isomorphic to the reference mgu; instances accepted, non-unifiers rejected) and symmetry are checked. Exploration: agreement on everything generated, no proof.",
+         REFI),
+ "C02": (PBT + " against a reference interpreter with un-normalised disequalities, ground-instance membership, conjunct permutation, and an interpreter-free brute-force oracle for flat programs",
+         "Pure tree programs (==, !=, conde, fresh, subsuming-pair motif) are run and compared as multisets of ground-instance sets with the reference, tuple by tuple with `q == g` extensions, under permutations of every conjunction, and (flat programs) with brute-force evaluation over U^n. Exploration.",
+         REFI),
+ "C03": (PBT + " with per-answer invariants (closedness, constraint relevance by own traversal) and a reference interpreter for sharing/distinctness of reified variables",
+         "Every answer of generated list/compound programs is checked for `_`-only variables, constraints over answer variables only, LResult::constraints() completeness through lists and compounds, and equivalence with the reference answer. Exploration.",
+         REFI),
+ "C18": (PBT + " against a BTreeSet reference model + exhaustive enumeration of all subset pairs of a 6-value window in thorough",
+         "Every public FiniteDomain operation is compared with a BTreeSet model on millions of domain pairs in both representations and both argument orders, plus O(1) operations on extreme isize bounds; thorough also enumerates a finite sub-space completely. Exploration.",
+         "Trusts std BTreeSet and the harness's small model; domains are non-empty."),
+ "C22": (PBT + " with an instrumented User type: history invariants at probe goals after every goal, and reference path traces",
+         "Generated programs run with a User type counting with_constraint/take_constraint/process_extension; balance with the store size is checked at a probe after every goal (also on failing branches), at the end of the body and after reification; extension bindings are checked against the substitution; probe traces and extension counts per answer against the reference path. Exploration.",
+         REFI),
 }
+CLAIMED = {k: (TABLE[k][0], TABLE[k][1], TABLE[k][2], "DESIGN.md §7 " + k) for k in IMPLEMENTED}
 PENDING_REASON = "check not implemented yet in this revision of the framework (work in progress; see DESIGN.md §7 for the planned generator and oracle)"
 
 props = [json.loads(l) for l in open(os.path.join(HERE, "properties.jsonl"))]
